@@ -17,7 +17,8 @@ _CACHE = {}
 
 
 def cfg_key(cfg):
-    return (cfg["tracks"], tuple(cfg["flags"]), cfg["bins"], tuple(cfg["pitch"]), tuple(cfg["steps"] or ()), tuple(cfg["values"] or ()))
+    return (cfg["tracks"], tuple(cfg["flags"]), cfg["bins"], tuple(cfg["pitch"]), tuple(cfg["steps"] or ()), tuple(cfg["values"] or ()),
+            tuple(cfg.get("tsr") or (2, 16)))
 
 
 def make_tok(cfg, cache=True):
@@ -26,6 +27,7 @@ def make_tok(cfg, cache=True):
     if cache and k in _CACHE:
         return _CACHE[k]
     kw = dict(num_tracks=cfg["tracks"], pitch_range=tuple(cfg["pitch"]), velocity_bins=cfg["bins"],
+              time_signature_range=tuple(cfg.get("tsr") or (2, 16)),
               flag_running_values=cfg["flags"][0], flag_fuse_track=cfg["flags"][1], flag_fuse_value=cfg["flags"][2],
               flag_fuse_velocity=cfg["flags"][3])
     if cfg["steps"]:
@@ -100,7 +102,8 @@ def valid_piece(rng, cfg, stratum="A", nseg=(1, 3), nbars=(1, 3), max_notes=7):
     steps, values = steps_of(cfg), values_of(cfg)
     smax = max(steps)
     for _attempt in range(50):
-        sigs = [s for s in SIGS_OK]
+        lo_ts, hi_ts = cfg.get("tsr") or (2, 16)
+        sigs = [s for s in SIGS_OK if lo_ts <= 8 * s[0] // s[1] <= hi_ts]
         bars, ts_ev, total = gen.bar_plan(rng, nseg=nseg, nbars=nbars, sigs=sigs)
         if not bars:
             continue
@@ -212,5 +215,6 @@ def expected_vocabulary(cfg, bins):
     else:
         keys += velparts
     keys += ["-".join(c) for c in itertools.product(*parts)]
-    keys += [f"tsg_{n:02}_08" for n in range(2, 17)]
+    lo, hi = cfg.get("tsr") or (2, 16)
+    keys += [f"tsg_{n:02}_08" for n in range(lo, hi + 1)]
     return keys
